@@ -480,7 +480,7 @@ def run(ctx):
     ctx.require("handoffs", "order_checked", "overlap_checked", "spacing_checked", "internal_judged", "join_stop_returned",
                 "send_raised_CommunicationError", "send_raised_ValueError", "send_raised_ConversionError",
                 "send_outcome_slow", "send_outcome_ok_no_con", "callback_raised", "restarts", "joins_midway")
-    n = ctx.scale(2500, 320000)
+    n = ctx.scale(2500, 160000)
     for i in range(n):
         if not ctx.mine(i):
             continue
